@@ -17,6 +17,10 @@ def F(u, abi, args, ret): return ("f", u, abi, list(args), ret)
 U = T()
 u64, u32, i64, u8, u16, bool_, str_ = P("u64"), P("u32"), P("i64"), P("u8"), P("u16"), P("bool"), P("str")
 String, VecU8, OptU8, OptBool = P("alloc::string::String"), P("alloc::vec::Vec", u8), P("core::option::Option", u8), P("core::option::Option", bool_)
+OptU16 = P("core::option::Option", u16)
+# two DIFFERENT types whose paths end in the same segment, and a generic instance differing only in its argument
+WireHeader, DiskHeader = P("real::sigfam::wire::Header"), P("real::sigfam::disk::Header")
+RUSTNAME.update({"real::sigfam::wire::Header": "wire::Header", "real::sigfam::disk::Header": "disk::Header"})
 
 def rust(t, static=False):
     k = t[0]
@@ -51,6 +55,8 @@ FAM = [
  ("p2_arr", F(0, None, [u64, A(4, u8)], u64), "param"), ("p2_slice", F(0, None, [u64, R(1, 0, S(u8))], u64), "param"),
  ("p2_str", F(0, None, [u64, R(1, 0, str_)], u64), "param"), ("p2_string", F(0, None, [u64, String], u64), "param"),
  ("p2_vec", F(0, None, [u64, VecU8], u64), "param"), ("p2_opt", F(0, None, [u64, OptU8], u64), "param"),
+ ("p2_opt16", F(0, None, [u64, OptU16], u64), "param"), ("p2_wire", F(0, None, [u64, WireHeader], u64), "samename"), ("p2_disk", F(0, None, [u64, DiskHeader], u64), "samename"),
+ ("ret_wire", F(0, None, base_args, WireHeader), "samename"), ("ret_disk", F(0, None, base_args, DiskHeader), "samename"),
  ("p2_static", F(0, None, [u64, R(0, 0, u8)], u64), "lifetime"),
  ("ret_unit", F(0, None, base_args, U), "return"), ("ret_bool", F(0, None, base_args, bool_), "return"), ("ret_u32", F(0, None, base_args, u32), "return"),
  ("ret_never", F(0, None, base_args, N), "return"), ("ret_pair", F(0, None, base_args, T(u64, u64)), "return"), ("ret_string", F(0, None, base_args, String), "return"),
@@ -66,7 +72,7 @@ def body(ret, i):
 
 def main():
     out = ["// GENERATED by tools/gen_sigfam.py — do not edit", "#![allow(unused_variables, dead_code, improper_ctypes_definitions, clippy::all)]",
-           "use injectorpp::interface::injector::*;", "",
+           "use injectorpp::interface::injector::*;", "pub mod wire { pub struct Header(pub u8); }", "pub mod disk { pub struct Header(pub u16); }", "",
            "pub struct Member { pub name: &'static str, pub target: fn() -> FuncPtr, pub fake: fn() -> FuncPtr, pub arm: Option<fn() -> FuncPtr>, pub closure: Option<fn() -> FuncPtr>,",
            "                    pub fakemacro: Option<fn() -> (FuncPtr, CallCountVerifier)>, pub unchecked_target: fn() -> FuncPtr, pub unchecked_fake: fn() -> FuncPtr, pub tname: fn() -> &'static str, pub taddr: fn() -> u64 }", ""]
     members = []
